@@ -284,6 +284,47 @@ class SimSocket(object):
             self.world.run.link.close(self.world.waiter.actor())
 
 
+class SiblingSocket(SimSocket):
+    """The socket of *another* TcpTransport object of the same process, connected to another peer (address 'sibling-device'). Its peer has
+    written `inbox` at connection time and reads everything at once. It shares nothing with the socket under test except the process."""
+    sibling = True
+
+    def __init__(self, world, timeout, inbox):
+        SimSocket.__init__(self, world, timeout)
+        self.inbox = bytearray(inbox)
+        self.sent = bytearray()
+
+    def fileno(self):
+        return 8
+
+    def recv(self, n):
+        self._check()
+        if self.inbox:
+            out = bytes(self.inbox[:n])
+            del self.inbox[:n]
+            return out
+        if self._timeout == 0.0:
+            raise BlockingIOError(errno.EAGAIN, 'Resource temporarily unavailable (simulated, sibling)')
+        if self._timeout is None:
+            raise SimHang('recv() on the blocking sibling socket can never return')
+        self.world.clock.advance(self._timeout)
+        raise _real_socket.timeout('timed out (simulated, sibling)')
+
+    def send(self, data):
+        self._check()
+        self.sent += bytes(data)
+        return len(data)
+
+    def shutdown(self, how):
+        if self.closed:
+            raise OSError(errno.EBADF, 'Bad file descriptor (simulated)')
+        self.shut = True
+
+    def close(self):
+        self.closes += 1
+        self.closed = True
+
+
 class TcpWorld(object):
     """The fake `socket` and `select` modules seen by adb_shell.transport.tcp_transport."""
 
@@ -295,6 +336,8 @@ class TcpWorld(object):
         self.spec = scn.get('tcp', {})
         self.pipe = Pipe(run, self.spec)
         self.sockets = []
+        self.siblings = []
+        self.sibling_inbox = b''
         self.select_log = []
         run.sock = self.pipe
         world = self
@@ -330,6 +373,10 @@ class TcpWorld(object):
         return min(ts) if ts else None
 
     def create_connection(self, address, timeout):
+        if address[0] == 'sibling-device':
+            s = SiblingSocket(self, timeout, self.sibling_inbox)
+            self.siblings.append(s)
+            return s
         link = self.run.link
         self.waiter.yield_point('connect')
         plan = link.cfg.get('connect_plan') or []
@@ -356,7 +403,10 @@ class TcpWorld(object):
         for s in rlist:
             if s.closed:
                 raise OSError(errno.EBADF, 'Bad file descriptor (simulated)')
-            if link.dead is not None:
+            if getattr(s, 'sibling', False):
+                if s.inbox:
+                    r.append(s)
+            elif link.dead is not None:
                 r.append(s)
             elif link.readable_now():
                 r.append(s)
@@ -366,7 +416,7 @@ class TcpWorld(object):
         for s in wlist:
             if s.closed:
                 raise OSError(errno.EBADF, 'Bad file descriptor (simulated)')
-            if self.pipe.room() > 0 or link.dead is not None:
+            if getattr(s, 'sibling', False) or self.pipe.room() > 0 or link.dead is not None:
                 w.append(s)
         return r, w
 
